@@ -38,6 +38,24 @@ CHECKS.update({
             "explicit-state exhaustive enumeration of inputs on the implementation, lock-step reference model"),
 })
 
+CHECKS.update({
+    "C06": ("DESIGN.md 5/C06",
+            "All lists of 1-3 (4) inputs from a pool of arrays/Datasets covering every label relation and storage order x join x sort x axis are "
+            "aligned on the working tree; outputs are compared with python set union / intersection, sortedness rule, per-coordinate values and input snapshots.",
+            "trusts python sets / coordinate maps of mc/ref.py; label order only constrained when all inputs are sorted the same way; strict= not covered",
+            "explicit-state exhaustive enumeration of input lists executed on the implementation against a set-based reference"),
+    "C08": ("DESIGN.md 5/C08",
+            "Every shape with sizes 1-3(4) up to 4-D x NaN pattern x reduction x axis spelling (None/position/name/negative/ordered tuples) x skipna is "
+            "executed; each output cell is recomputed with NumPy's function on the slice members gathered by the reference's own loops.",
+            "trusts np.<f> on 1-D member lists (oracle named by the property); rtol 1e-12; all-NaN slices accept NaN or identity",
+            "explicit-state exhaustive enumeration of (array, reduction, axis, skipna) on the implementation, per-slice NumPy oracle"),
+    "C09": ("DESIGN.md 5/C09",
+            "Every operated-axis position/size/label kind x cumsum/cumprod/diff(n, scheme, keepaxis)/argmin/argmax executed and compared fibre by fibre "
+            "with np.cumsum/np.cumprod/np.diff and with the extremum reached through the returned labels.",
+            "trusts np.cumsum/cumprod/diff/min/max on 1-D fibres; keepaxis+centered and diff(axis=None) not covered",
+            "explicit-state exhaustive enumeration of (array, operation) on the implementation, per-fibre NumPy oracle"),
+})
+
 PENDING = ["C01", "C03", "C05", "C06", "C07", "C08", "C09", "C10", "C11", "C12", "C13", "C14", "C15", "C16", "C17", "C18", "C19", "C20"]
 
 
